@@ -333,6 +333,8 @@ def replay(beh_path, mode="inline", nproc=NPROC, base_seed=None, fs=True, timeou
             return (p, fh, outp, job)
         pending = list(jobs)
         while pending or running:
+            if pending and sum(1 for r in results if r.get("status") in ("violation", "crash")) >= 40:
+                pending = []     # more than enough disagreements to report: do not spend minutes per hang on the rest
             while pending and len(running) < nproc:
                 running.append(start(pending.pop(0)))
             time.sleep(0.02)
@@ -352,7 +354,10 @@ def replay(beh_path, mode="inline", nproc=NPROC, base_seed=None, fs=True, timeou
                     # the worker left blocked goroutines behind (a detected hang) and asks for a fresh process
                     results.extend(got)
                     last = max(g["id"] for g in got)
-                    if last + 1 < job[0] + job[1]:
+                    hung = any((g.get("mismatch") or {}).get("kind") == "hang" for g in got)
+                    # after an operation that never returned, the rest of this share is not replayed: every further hang
+                    # costs a minute, and one is a verdict
+                    if last + 1 < job[0] + job[1] and not hung:
                         pending.append((last + 1, job[0] + job[1] - last - 1))
                 elif p.returncode != 0 or len(got) < job[1] * per:
                     # a worker died: the behaviour it was executing made the real code panic or hang
